@@ -346,6 +346,10 @@ def run_check(pid, fn, argv=None):
         fn(ctx)
     except Inconclusive as e:
         log("INCONCLUSIVE %s: %s" % (pid, e))
+        if ctx.violations:
+            # what was already established on the real code stands, whatever stopped the run afterwards
+            ctx.notes["inconclusive_after_violations"] = str(e)[:1000]
+            ctx.finish()
         # still leave an evidence file describing what was covered before the stop
         try:
             ctx.notes["inconclusive"] = str(e)[:2000]
